@@ -646,8 +646,7 @@ def run(ctx):
                 c08items.append(('adapter' if (len(c08items) % 2 == 0) else 'verifying', combo, vals))
     sets.append(('c08', c08items if not quick else c08items[::3]))
     c14 = _m('c14')
-    hooklists = [()] + [(a,) for a in c14.HOOK] + list(itertools.product(c14.HOOK, repeat=2))
-    sets.append(('c14', list(itertools.product(c14.ADAPT, c14.CONF, c14.PROVIDED, hooklists, c14.ALT))))
+    sets.append(('c14', c14.call_cases(2)))
     c19 = _m('c19')
     items19 = []
     for shape in ('chain', 'diamond', 'mixin'):
